@@ -340,6 +340,11 @@ def phases(tier):
               describe='points = lines touching shared state; all programs; pre-emption bound 2'),
         Phase('shared-state-lines-b3', make_body(_sub('slow', 'block'), 16, True), bound=3, setup=_setup, chunk=150,
               horizon_s=30, max_execs=600000, describe='terminating and blocking student; pre-emption bound 3 (capped)'),
+        Phase('configured-entries-b1', make_body(PROGRAMS, 40, True, 'call-configured'), bound=1, setup=_setup, chunk=150,
+              horizon_s=30, describe="sandbox.threaded = True and the module-level call('go'); pre-emption bound 1"),
+        Phase('configured-import-b1', make_body(IMPORT_HELPER, 90, True, 'run-configured'), bound=1, setup=_setup, chunk=150,
+              horizon_s=30, max_execs=1500000,
+              describe='nested timed import (a timed thread inside the timed thread); pre-emption bound 1 (capped, cap reported)'),
         Phase('evaluate-entry-b1', make_body(PROGRAMS, 40, True, 'evaluate'), bound=1, setup=_setup, chunk=150, horizon_s=30,
               describe="the time-out inside evaluate('go()', threaded=True); all programs; pre-emption bound 1"),
         Phase('call-entry-b2', make_body(PROGRAMS, 40, True, 'call'), bound=2, setup=_setup, chunk=150, horizon_s=30,
